@@ -149,9 +149,22 @@ impl<'a> Gen<'a> {
             None => self.c.cost(3, "shape-kind"),
         };
         shapes.push(self.shape(k0));
-        if self.c.cost(2, "second-shape") == 1 {
-            let k = self.c.cost(3, "shape-kind");
-            shapes.push(self.shape(k));
+        match self.c.cost(4, "second-shape") {
+            0 => {}
+            1 => {
+                let k = self.c.cost(3, "shape-kind");
+                shapes.push(self.shape(k));
+            }
+            // the first shape stated a second time: digit for digit / with one more trailing zero everywhere
+            alt => {
+                let again = |d: &Dec| if alt == 2 { d.clone() } else { Dec { mant: d.mant * 10, scale: d.scale + 1 } };
+                let twin = match &shapes[0] {
+                    GShape::Rect(a, b, c, d) => GShape::Rect(again(a), again(b), again(c), again(d)),
+                    GShape::Polygon(v) => GShape::Polygon(v.iter().map(|(x, y)| (again(x), again(y))).collect()),
+                    GShape::Path(v) => GShape::Path(v.iter().map(|(x, y)| (again(x), again(y))).collect()),
+                };
+                shapes.push(twin);
+            }
         }
         let has_path = shapes.iter().any(|s| matches!(s, GShape::Path(_)));
         let width = if has_path { Some(self.coord(false)) } else { None };
@@ -330,7 +343,7 @@ impl CaseDriver for C16 {
     fn describe(&self, tier: Tier) -> Describe {
         Describe {
             rule: format!(
-                "LefLibrary values built directly: 1-2 macros with SIZE, 0-2 pins x 1-2 ports x 1-2 layer geometries, 0-2 obstruction layers (second optionally on the same layer => merged), 1-2 geometries per layer of kind RECT / POLYGON (3-5 points) / PATH (2-3 points, layer WIDTH), layer names from {{m1, M1, via, boundary, e-acute}}; polygons optionally closed explicitly and paths optionally returning to their first point; UNITS DATABASE MICRONS absent / 1000 / 100 / 2000 / 10000 / 20000 (raw units stay 1e-4 um: the import declares Angstrom); every coordinate site takes one of 13 decimals Decimal::new(mantissa, scale) built from the site counter (so all sites differ: x != y everywhere): scale 0,1,2,4,5,6, negative, trailing zeros, zero spelled 0 and 0.000, and four values (two positive, two negative) that are not a whole number of 1e-4 um. Free: kind of the first shape and second macro; all other choices cost one deviation; all choice sequences with <= {} deviations. A state is one library value; non-trivial = at least one deviation. Oracle: value*10^4 computed on the decimal digits.",
+                "LefLibrary values built directly: 1-2 macros with SIZE, 0-2 pins x 1-2 ports x 1-2 layer geometries, 0-2 obstruction layers (second optionally on the same layer => merged), 1-2 geometries per layer of kind RECT / POLYGON (3-5 points) / PATH (2-3 points, layer WIDTH), the second one optionally the first one stated again (digit for digit, or with one more trailing zero on every number: still two shapes), layer names from {{m1, M1, via, boundary, e-acute}}; polygons optionally closed explicitly and paths optionally returning to their first point; UNITS DATABASE MICRONS absent / 1000 / 100 / 2000 / 10000 / 20000 (raw units stay 1e-4 um: the import declares Angstrom); every coordinate site takes one of 13 decimals Decimal::new(mantissa, scale) built from the site counter (so all sites differ: x != y everywhere): scale 0,1,2,4,5,6, negative, trailing zeros, zero spelled 0 and 0.000, and four values (two positive, two negative) that are not a whole number of 1e-4 um. Free: kind of the first shape and second macro; all other choices cost one deviation; all choice sequences with <= {} deviations. A state is one library value; non-trivial = at least one deviation. Oracle: value*10^4 computed on the decimal digits.",
                 self.bound(tier)
             ),
             assumptions: vec!["WIDTH is only generated on layers that hold a PATH (an unused non-representable WIDTH is not a coordinate of any shape)".into()],
